@@ -870,4 +870,386 @@ theorem nowhiteL_spec (htab : TabOk) (hbases : BasesOk) (rb : Nat) (hrb : rb = 0
           exact hrest_spec false
       · rw [htl, ← hn]
 
+/-! ### mpz_inp_str -/
+
+theorem drop_takeWhile_length (p : Nat → Bool) : ∀ l : List Nat, l.drop (l.takeWhile p).length = l.dropWhile p
+  | [] => rfl
+  | x :: l => by
+    by_cases h : p x = true
+    · rw [List.takeWhile_cons_of_pos h, List.dropWhile_cons_of_pos h]
+      simp [drop_takeWhile_length p l]
+    · rw [List.takeWhile_cons_of_neg h, List.dropWhile_cons_of_neg h]; rfl
+
+/-- mpz_inp_str_nowhite with `c` = the character with index `k` of the stream `s`: consumes exactly the token
+    of the remaining input, stores its `parseSpec` value, returns the number of characters read so far -/
+theorem nowhiteK_spec (htab : TabOk) (hbases : BasesOk) (rb : Nat) (hrb : rb = 0 ∨ 2 ≤ rb) (hrb62 : rb ≤ 62)
+    (s : List Nat) (hs : ∀ c ∈ s, c < 256) (k : Nat) :
+    match inpTok rb (s.drop k) with
+    | none => (nowhiteK (rb : Int) s k).ret = 0 ∧ (nowhiteK (rb : Int) s k).value = none
+    | some tok => nowhiteK (rb : Int) s k = ⟨k + tok.length, parseSpec (rb : Int) tok, k + tok.length⟩ ∧
+        (parseSpec (rb : Int) tok).isSome = true ∧ tok = (s.drop k).take tok.length := by
+  have h1 := nowhiteK_eq_L (rb : Int) s k
+  have h2 := nowhiteL_spec htab hbases rb hrb hrb62 (s.drop k) (fun c hc => hs c (List.mem_of_mem_drop hc))
+  cases htk : inpTok rb (s.drop k) with
+  | none =>
+    rw [htk] at h2
+    simp only at h2 ⊢
+    rw [h2] at h1
+    exact h1
+  | some tok =>
+    rw [htk] at h2
+    obtain ⟨v, a1, a2, a3⟩ := h2
+    rw [a1] at h1
+    simp only at h1 ⊢
+    rw [a2]
+    exact ⟨h1, rfl, a3⟩
+
+/-- mpz_inp_str, requested base 0 or 2..62, any byte stream: skips the leading white space, consumes the
+    token (sign, base-0 prefix, longest run of digits), stores its `parseSpec` value and returns the number
+    of bytes consumed including the white space; returns 0 without storing when there is no digit -/
+theorem mpz_inp_str_spec_of (htab : TabOk) (hbases : BasesOk) (rb : Nat) (hrb : rb = 0 ∨ 2 ≤ rb) (hrb62 : rb ≤ 62)
+    (s : List Nat) (hs : ∀ c ∈ s, c < 256) :
+    match inpTok rb (s.dropWhile isSpace) with
+    | none => (mpz_inp_str (rb : Int) s).ret = 0 ∧ (mpz_inp_str (rb : Int) s).value = none
+    | some tok => mpz_inp_str (rb : Int) s =
+          ⟨(s.takeWhile isSpace).length + tok.length, parseSpec (rb : Int) tok, (s.takeWhile isSpace).length + tok.length⟩ ∧
+        (parseSpec (rb : Int) tok).isSome = true ∧ tok = (s.dropWhile isSpace).take tok.length := by
+  rw [mpz_inp_str_eq (rb : Int) (by omega) s, ← drop_takeWhile_length]
+  exact nowhiteK_spec htab hbases rb hrb hrb62 s hs _
+
+/-! ### reading back what mpz_out_str wrote -/
+
+theorem takeWhile_append_all {p : Nat → Bool} : ∀ (l1 l2 : List Nat), (∀ x ∈ l1, p x = true) →
+    (l1 ++ l2).takeWhile p = l1 ++ l2.takeWhile p
+  | [], _, _ => rfl
+  | x :: l1, l2, h => by
+    rw [List.cons_append, List.takeWhile_cons_of_pos (h x (by simp)),
+      takeWhile_append_all l1 l2 (fun y hy => h y (List.mem_cons_of_mem _ hy))]
+    rfl
+
+/-- `rest` does not continue the number: it is empty or starts with a character that is not a digit of base b -/
+def NoDigitAhead (b : Nat) (rest : List Nat) : Prop :=
+  match rest with
+  | [] => True
+  | c :: _ => (digitOf b b c).isSome = false
+
+theorem takeWhile_noDigit {b : Nat} {rest : List Nat} (h : NoDigitAhead b rest) :
+    rest.takeWhile (fun c => (digitOf b b c).isSome) = [] := by
+  cases rest with
+  | nil => rfl
+  | cons c t =>
+    have : ¬ (digitOf b b c).isSome = true := by
+      have h' : (digitOf b b c).isSome = false := h
+      rw [h']; simp
+    exact List.takeWhile_cons_of_neg (p := fun c => (digitOf b b c).isSome) this
+
+/-- the token of `getStrSpec base x ++ rest` is `getStrSpec base x` -/
+theorem inpTok_getStrSpec (base : Int) (hb : LegalOutBase base) (x : Int) (rest : List Nat)
+    (hnd : NoDigitAhead base.natAbs rest) :
+    inpTok base.natAbs (getStrSpec base x ++ rest) = some (getStrSpec base x) ∧
+    (getStrSpec base x ++ rest).dropWhile isSpace = getStrSpec base x ++ rest := by
+  have hb2 : 2 ≤ base.natAbs ∧ base.natAbs ≤ 62 := by unfold LegalOutBase at hb; omega
+  obtain ⟨ds, hds, hlt, hne⟩ : ∃ ds : List Nat,
+      (if x = 0 then [0] else digitsOf base.natAbs x.natAbs) = ds ∧ (∀ d ∈ ds, d < base.natAbs) ∧ ds ≠ [] := by
+    by_cases hx : x = 0
+    · subst hx; exact ⟨[0], by simp, by simp; omega, by simp⟩
+    · exact ⟨digitsOf base.natAbs x.natAbs, by simp [hx], digitsOf_lt hb2.1 _,
+        digitsOf_ne_nil hb2.1 (Int.natAbs_pos.mpr hx)⟩
+  unfold getStrSpec
+  simp only [hds]
+  generalize hcs : ds.map (digitChar base) = cs
+  have hcsD : ∀ c ∈ cs, (digitOf base.natAbs base.natAbs c).isSome = true := by
+    intro c hc
+    rw [← hcs] at hc
+    obtain ⟨d, hd, rfl⟩ := List.mem_map.mp hc
+    have := (digitChar_props base hb d (hlt d hd)).1
+    unfold digitOf; rw [this]; simp only; rw [if_pos (hlt d hd)]; rfl
+  obtain ⟨c0, t0, hct⟩ : ∃ c0 t0, cs = c0 :: t0 := by
+    cases cs with
+    | nil => rw [← hcs] at hne; simp at hne; simp_all
+    | cons a l => exact ⟨a, l, rfl⟩
+  have hc0 := digit_char_props (hcsD c0 (by rw [hct]; simp))
+  have hrb0 : base.natAbs ≠ 0 := by omega
+  have htw : (cs ++ rest).takeWhile (fun c => (digitOf base.natAbs base.natAbs c).isSome) = cs := by
+    rw [takeWhile_append_all cs rest hcsD, takeWhile_noDigit hnd, List.append_nil]
+  by_cases hx : x < 0
+  · simp only [hx, if_true]
+    refine ⟨?_, by simp [isSpace]⟩
+    unfold inpTok
+    simp only [List.cons_append, List.nil_append, List.head?_cons, beq_self_eq_true, if_true, List.drop_succ_cons,
+      List.drop_zero]
+    rw [hct]
+    simp only [List.cons_append]
+    have hD := hcsD c0 (by rw [hct]; simp)
+    have hN : (digitOf base.natAbs (if base.natAbs = 0 then 10 else base.natAbs) c0).isNone = false := by
+      rw [if_neg hrb0]
+      cases hd : digitOf base.natAbs base.natAbs c0 with
+      | none => rw [hd] at hD; simp at hD
+      | some _ => rfl
+    rw [hN]
+    simp only [Bool.false_eq_true, if_false, if_neg hrb0]
+    rw [← List.cons_append, ← hct, htw]
+    congr 1
+    have : (45 :: (cs ++ rest)).length - (cs ++ rest).length + cs.length = (45 :: cs).length := by
+      simp only [List.length_cons, List.length_append]; omega
+    rw [this, show 45 :: (cs ++ rest) = (45 :: cs) ++ rest from rfl]
+    exact List.take_left' rfl
+  · simp only [hx, if_false, List.nil_append]
+    refine ⟨?_, by rw [hct]; simp [hc0.2.1]⟩
+    unfold inpTok
+    have hh : ((cs ++ rest).head? == some 45) = false := by
+      rw [hct]; simpa using hc0.2.2.1
+    simp only [hh, Bool.false_eq_true, if_false]
+    rw [hct]
+    simp only [List.cons_append]
+    have hD := hcsD c0 (by rw [hct]; simp)
+    have hN : (digitOf base.natAbs (if base.natAbs = 0 then 10 else base.natAbs) c0).isNone = false := by
+      rw [if_neg hrb0]
+      cases hd : digitOf base.natAbs base.natAbs c0 with
+      | none => rw [hd] at hD; simp at hD
+      | some _ => rfl
+    rw [hN]
+    simp only [Bool.false_eq_true, if_false, if_neg hrb0]
+    rw [← List.cons_append, ← hct, htw]
+    congr 1
+    rw [Nat.sub_self, Nat.zero_add]
+    exact List.take_left' rfl
+
+/-- mpz_inp_str reads back what mpz_out_str wrote, whatever follows, as long as it does not continue the number -/
+theorem inp_out_roundtrip_of (htab : TabOk) (hbases : BasesOk) (h10 : Base10Ok) (base : Int) (hb : LegalOutBase base)
+    (x : Int) (rest : List Nat) (hrest : ∀ c ∈ rest, c < 256) (hnd : NoDigitAhead base.natAbs rest) :
+    mpz_inp_str (base.natAbs : Int) ((mpz_out_str base x).1 ++ rest) =
+      ⟨(mpz_out_str base x).2, some x, (mpz_out_str base x).2⟩ := by
+  have hb2 : 2 ≤ base.natAbs ∧ base.natAbs ≤ 62 := by unfold LegalOutBase at hb; omega
+  have hob : outBase base = base := by
+    unfold outBase; rw [if_neg]; unfold LegalOutBase at hb; omega
+  rw [mpz_out_str_spec_of hbases h10 base (by rw [hob]; exact hb) x, hob]
+  simp only
+  obtain ⟨ht, hdw⟩ := inpTok_getStrSpec base hb x rest hnd
+  have hbytes : ∀ c ∈ getStrSpec base x ++ rest, c < 256 := by
+    intro c hc
+    rcases List.mem_append.mp hc with h | h
+    · exact getStrSpec_bytes base hb x c h
+    · exact hrest c h
+  have h := mpz_inp_str_spec_of htab hbases base.natAbs (Or.inr hb2.1) hb2.2 _ hbytes
+  rw [hdw, ht] at h
+  simp only at h
+  have hws : (getStrSpec base x ++ rest).takeWhile isSpace = [] := by
+    have : (getStrSpec base x ++ rest).dropWhile isSpace = getStrSpec base x ++ rest := hdw
+    cases hl : getStrSpec base x ++ rest with
+    | nil => rfl
+    | cons a l =>
+      rw [hl] at this
+      by_cases ha : isSpace a = true
+      · rw [List.dropWhile_cons_of_pos ha] at this
+        have h1 := congrArg List.length this
+        have h2 : (l.dropWhile isSpace).length ≤ l.length := (List.dropWhile_sublist _).length_le
+        simp at h1; omega
+      · exact List.takeWhile_cons_of_neg ha
+  rw [hws, parse_getStrSpec base hb x] at h
+  simpa using h.1
+
+/-! ### mpq_out_str / mpq_inp_str -/
+
+theorem mpq_out_str_spec_of (hbases : BasesOk) (h10 : Base10Ok) (base : Int) (hb : LegalOutBase (outBase base))
+    (n d : Int) :
+    mpq_out_str base n d =
+      (if d = 1 then getStrSpec (outBase base) n else getStrSpec (outBase base) n ++ [47] ++ getStrSpec (outBase base) d,
+       (if d = 1 then getStrSpec (outBase base) n
+        else getStrSpec (outBase base) n ++ [47] ++ getStrSpec (outBase base) d).length) := by
+  unfold mpq_out_str
+  rw [mpz_out_str_spec_of hbases h10 base hb n, mpz_out_str_spec_of hbases h10 base hb d]
+  by_cases hd : d = 1
+  · simp [hd]
+  · have : (d != 1) = true := by simpa using hd
+    simp only [this, if_true, if_neg hd, List.length_append, List.length_cons, List.length_nil]
+    congr 1; omega
+
+theorem parseSpec_nil (base : Int) : parseSpec base [] = none := by
+  unfold parseSpec; simp
+
+theorem getc_eq (s : List Nat) (k : Nat) : getc s k = (s[k]?, posOf s k) := by
+  unfold getc posOf
+  by_cases h : k < s.length
+  · rw [List.getElem?_eq_getElem h, if_pos h]
+  · rw [List.getElem?_eq_none (by omega), if_neg h]
+
+/-- mpq_inp_str, requested base 0 or 2..62: the numerator is read like mpz_inp_str; if the next character is `/`
+    the denominator follows immediately (no white space) and is read the same way; otherwise the denominator is 1
+    and the character is pushed back.  The two parts are stored as read (no canonicalisation: the caller must
+    call mpq_canonicalize, as the manual says).  Return value = bytes consumed, 0 if either part has no digit. -/
+theorem mpq_inp_str_spec_of (htab : TabOk) (hbases : BasesOk) (rb : Nat) (hrb : rb = 0 ∨ 2 ≤ rb) (hrb62 : rb ≤ 62)
+    (s : List Nat) (hs : ∀ c ∈ s, c < 256) :
+    match inpTok rb (s.dropWhile isSpace) with
+    | none => (mpq_inp_str (rb : Int) s).1 = 0 ∧ (mpq_inp_str (rb : Int) s).2.1 = none
+    | some tn =>
+      ∃ vn, parseSpec (rb : Int) tn = some vn ∧
+      if s[(s.takeWhile isSpace).length + tn.length]? = some 47 then
+        match inpTok rb (s.drop ((s.takeWhile isSpace).length + tn.length + 1)) with
+        | none => (mpq_inp_str (rb : Int) s).1 = 0 ∧ (mpq_inp_str (rb : Int) s).2.1 = none
+        | some td => ∃ vd, parseSpec (rb : Int) td = some vd ∧
+            td = (s.drop ((s.takeWhile isSpace).length + tn.length + 1)).take td.length ∧
+            mpq_inp_str (rb : Int) s =
+              ((s.takeWhile isSpace).length + tn.length + 1 + td.length, some (vn, vd),
+               (s.takeWhile isSpace).length + tn.length + 1 + td.length)
+      else mpq_inp_str (rb : Int) s =
+        ((s.takeWhile isSpace).length + tn.length, some (vn, 1), (s.takeWhile isSpace).length + tn.length) := by
+  have h1 := mpz_inp_str_spec_of htab hbases rb hrb hrb62 s hs
+  unfold mpq_inp_str
+  cases htk : inpTok rb (s.dropWhile isSpace) with
+  | none =>
+    rw [htk] at h1
+    simp only at h1 ⊢
+    have : ((mpz_inp_str (rb : Int) s).ret == 0) = true := by rw [h1.1]; rfl
+    rw [if_pos this]; exact ⟨rfl, rfl⟩
+  | some tn =>
+    rw [htk] at h1
+    obtain ⟨a1, a2, a3⟩ := h1
+    obtain ⟨vn, hvn⟩ := Option.isSome_iff_exists.mp a2
+    refine ⟨vn, hvn, ?_⟩
+    have htn : 1 ≤ tn.length := by
+      rcases Nat.eq_zero_or_pos tn.length with h | h
+      · have : tn = [] := List.length_eq_zero_iff.mp h
+        rw [this, parseSpec_nil] at hvn; simp at hvn
+      · exact h
+    rw [a1, hvn]
+    generalize hk : (s.takeWhile isSpace).length + tn.length = k at *
+    have hret : ((k == 0) = true) = False := by simp; omega
+    simp only [hret, if_false, getc_eq, Option.getD_some]
+    by_cases h47 : s[k]? = some 47
+    · have hc : (s[k]? == some 47) = true := by rw [h47]; rfl
+      rw [if_pos h47]
+      simp only [hc, if_true]
+      have hklt := some_lt h47
+      have hpos : posOf s k = k + 1 := by unfold posOf; rw [if_pos hklt]
+      rw [hpos]
+      have hst : inp_str_nowhite (rb : Int) s s[k + 1]? (posOf s (k + 1)) (k + 1 + 1) = nowhiteK (rb : Int) s (k + 1) :=
+        nowhite_eq (rb : Int) (by omega) s (k + 1) (by omega)
+      rw [hst]
+      have h2 := nowhiteK_spec htab hbases rb hrb hrb62 s hs (k + 1)
+      cases htd : inpTok rb (s.drop (k + 1)) with
+      | none =>
+        rw [htd] at h2
+        simp only at h2 ⊢
+        have : ((nowhiteK (rb : Int) s (k + 1)).ret == 0) = true := by rw [h2.1]; rfl
+        rw [if_pos this]; exact ⟨rfl, rfl⟩
+      | some td =>
+        rw [htd] at h2
+        obtain ⟨b1, b2, b3⟩ := h2
+        obtain ⟨vd, hvd⟩ := Option.isSome_iff_exists.mp b2
+        refine ⟨vd, hvd, b3, ?_⟩
+        rw [b1, hvd]
+        have : ((k + 1 + td.length == 0) = true) = False := by simp
+        simp only [this, if_false, Option.getD_some]
+    · have hc : (s[k]? == some 47) = false := by
+        cases hh : s[k]? with
+        | none => rfl
+        | some c => rw [hh] at h47; simp at h47; simpa using h47
+      rw [if_neg h47]
+      simp only [hc, Bool.false_eq_true, if_false, Nat.add_sub_cancel]
+
+theorem noDigit_47 (b : Nat) (l : List Nat) : NoDigitAhead b (47 :: l) := by
+  unfold NoDigitAhead digitOf charValue; simp
+
+theorem dropWhile_getStrSpec (base : Int) (hb : LegalOutBase base) (x : Int) (rest : List Nat) :
+    (getStrSpec base x ++ rest).takeWhile isSpace = [] := by
+  have h := (inpTok_getStrSpec base hb x [] (by unfold NoDigitAhead; trivial)).2
+  rw [List.append_nil] at h
+  have hne : getStrSpec base x ≠ [] := by
+    unfold getStrSpec
+    by_cases hx : x = 0
+    · simp [hx]
+    · have hb2 : 2 ≤ base.natAbs := by unfold LegalOutBase at hb; omega
+      have := digitsOf_ne_nil hb2 (Int.natAbs_pos.mpr hx)
+      simp [hx, this]
+  cases hl : getStrSpec base x with
+  | nil => exact absurd hl hne
+  | cons a l =>
+    rw [hl] at h
+    by_cases ha : isSpace a = true
+    · rw [List.dropWhile_cons_of_pos ha] at h
+      have h1 := congrArg List.length h
+      have h2 : (l.dropWhile isSpace).length ≤ l.length := (List.dropWhile_sublist _).length_le
+      simp at h1; omega
+    · exact List.takeWhile_cons_of_neg ha
+
+/-- mpq_inp_str reads back what mpq_out_str wrote: numerator and denominator exactly as they were written -/
+theorem mpq_inp_out_roundtrip_of (htab : TabOk) (hbases : BasesOk) (h10 : Base10Ok) (base : Int)
+    (hb : LegalOutBase base) (n d : Int) (rest : List Nat) (hrest : ∀ c ∈ rest, c < 256)
+    (hnd : NoDigitAhead base.natAbs rest) (h47 : d = 1 → rest.head? ≠ some 47) :
+    mpq_inp_str (base.natAbs : Int) ((mpq_out_str base n d).1 ++ rest) =
+      ((mpq_out_str base n d).2, some (n, d), (mpq_out_str base n d).2) := by
+  have hb2 : 2 ≤ base.natAbs ∧ base.natAbs ≤ 62 := by unfold LegalOutBase at hb; omega
+  have hob : outBase base = base := by
+    unfold outBase; rw [if_neg]; unfold LegalOutBase at hb; omega
+  rw [mpq_out_str_spec_of hbases h10 base (by rw [hob]; exact hb) n d, hob]
+  simp only
+  generalize hN : getStrSpec base n = N
+  generalize hD : getStrSpec base d = D
+  have hNb : ∀ c ∈ N, c < 256 := by rw [← hN]; exact getStrSpec_bytes base hb n
+  have hDb : ∀ c ∈ D, c < 256 := by rw [← hD]; exact getStrSpec_bytes base hb d
+  by_cases hd : d = 1
+  · rw [if_pos hd]
+    have hbytes : ∀ c ∈ N ++ rest, c < 256 := by
+      intro c hc
+      rcases List.mem_append.mp hc with h | h
+      · exact hNb c h
+      · exact hrest c h
+    have h := mpq_inp_str_spec_of htab hbases base.natAbs (Or.inr hb2.1) hb2.2 _ hbytes
+    obtain ⟨ht, hdw⟩ := inpTok_getStrSpec base hb n rest hnd
+    rw [hN] at ht hdw
+    have hws : (N ++ rest).takeWhile isSpace = [] := by rw [← hN]; exact dropWhile_getStrSpec base hb n rest
+    rw [hdw, ht] at h
+    simp only [hws, List.length_nil, Nat.zero_add] at h
+    obtain ⟨vn, hvn, hres⟩ := h
+    have hvn' : vn = n := by
+      have := parse_getStrSpec base hb n
+      rw [hN, hvn] at this; exact Option.some.inj this
+    have hnext : ¬ (N ++ rest)[N.length]? = some 47 := by
+      rw [List.getElem?_append_right (Nat.le_refl _), Nat.sub_self]
+      have := h47 hd
+      cases rest with
+      | nil => simp
+      | cons a l => simpa using this
+    rw [if_neg hnext] at hres
+    rw [hres, hvn', hd]
+  · rw [if_neg hd]
+    have hbytes : ∀ c ∈ N ++ [47] ++ D ++ rest, c < 256 := by
+      intro c hc
+      simp only [List.mem_append, List.mem_singleton] at hc
+      rcases hc with ((h | h) | h) | h
+      · exact hNb c h
+      · omega
+      · exact hDb c h
+      · exact hrest c h
+    have h := mpq_inp_str_spec_of htab hbases base.natAbs (Or.inr hb2.1) hb2.2 _ hbytes
+    have e1 : N ++ [47] ++ D ++ rest = N ++ (47 :: (D ++ rest)) := by simp
+    obtain ⟨ht, hdw⟩ := inpTok_getStrSpec base hb n (47 :: (D ++ rest)) (noDigit_47 _ _)
+    rw [hN] at ht hdw
+    have hws : (N ++ (47 :: (D ++ rest))).takeWhile isSpace = [] := by
+      rw [← hN]; exact dropWhile_getStrSpec base hb n _
+    rw [e1] at h ⊢
+    rw [hdw, ht] at h
+    simp only [hws, List.length_nil, Nat.zero_add] at h
+    obtain ⟨vn, hvn, hres⟩ := h
+    have hvn' : vn = n := by
+      have := parse_getStrSpec base hb n
+      rw [hN, hvn] at this; exact Option.some.inj this
+    have hnext : (N ++ (47 :: (D ++ rest)))[N.length]? = some 47 := by
+      rw [List.getElem?_append_right (Nat.le_refl _), Nat.sub_self]; rfl
+    rw [if_pos hnext] at hres
+    have hdrop : (N ++ (47 :: (D ++ rest))).drop (N.length + 1) = D ++ rest := by
+      rw [← List.drop_drop, List.drop_left]
+      rfl
+    rw [hdrop] at hres
+    obtain ⟨ht2, _⟩ := inpTok_getStrSpec base hb d rest hnd
+    rw [hD] at ht2
+    rw [ht2] at hres
+    obtain ⟨vd, hvd, _, hres'⟩ := hres
+    have hvd' : vd = d := by
+      have := parse_getStrSpec base hb d
+      rw [hD, hvd] at this; exact Option.some.inj this
+    rw [hres', hvn', hvd']
+    simp only [List.length_append, List.length_cons, List.length_nil]
+
 end Mpir.Radix
